@@ -428,8 +428,8 @@ func (s *Session) onRecord(resp *Response, req *Request) {
 }
 
 func (s *Session) onPlay(resp *Response, req *Request) (err error) {
-	if s.status == statusPlaying {
-		return
+	if s.status == statusPlaying { // 重复的 PLAY（常用作心跳）也必须应答
+		return s.response(resp)
 	}
 
 	// 传输模式、会话模式判断
